@@ -193,6 +193,11 @@ def c10Holds (E : ReEnv) (cfg : Cfg) (e : Entry) (sr : SReq) (o : Obs) : Bool :=
       (!(raw.escaped.isSome && raw.rc.status.isNone) || o.status == recoverStatus cfg)
   else o.escaped == raw.escaped && ledgerOK
 
+/-- C13, the framework's half, on an observation: every compressor acquired while the request was
+    served has been released exactly once when the entry point returns (or its panic leaves it) —
+    the ledger saw no release of an object that was not outstanding and no object handed out twice -/
+def c13Holds (o : Obs) : Bool := o.acq == o.rel && o.dbl == 0
+
 /-- F09: through ServeHTTP the container switch is consulted before routing, so a route that
     switched encoding off for itself is encoded anyway -/
 def f09Class (E : ReEnv) (cfg : Cfg) (e : Entry) (sr : SReq) : Bool :=
